@@ -96,7 +96,7 @@ class World(BaseWorld):
         self.slots = {}       # name -> dict(real, model, lineage)
         self.tasks = {}       # name -> dict
         self._den, self._den_key = None, None
-        self.nf_done = set()
+        self.nf_done = {}
 
     # -- helpers -----------------------------------------------------------
     def vio(self, what, msg, **details):
@@ -449,9 +449,19 @@ class World(BaseWorld):
             self.note("F5_missed")
         connected = M.is_connected(model)
         if (model, left) in self.nf_done:
-            self.note("nf_repeated_request")
+            # the same request again (another walker, or later in the session): the answer
+            # must be the same - a cache or other state that survives a call would show here
+            before = self.nf_done[(model, left)]
+            outcome, nf = self._normal_form(real, left, NF_MIN_BUDGET * 10)
+            again = M.model_of(nf) if outcome == "value" else outcome
+            if before is not None and again != before:
+                raise self.vio("unstable", "normal_form of the same diagram gave %s the first time and %s "
+                               "when asked again in the same session" % (
+                                   "a value" if not isinstance(before, str) else before,
+                                   "another value" if not isinstance(again, str) else again))
+            self.note("nf_repeated_request_same_answer")
             return "same request as before"
-        self.nf_done.add((model, left))
+        self.nf_done[(model, left)] = None
         ended, repeated, last, last_model, lines = self._own_trace(
             real, model, left, op.get("m2seed", 0), TRACE_CAP if connected else 120)
         outcome, nf = self._normal_form(real, left, max(NF_MIN_BUDGET, 30 * lines))
@@ -475,10 +485,12 @@ class World(BaseWorld):
             self.note("nf_value_on_repeating_trace")   # soundness of the value is checked below
         if outcome == "NotImplementedError":
             self.note("nf_not_implemented")
+            self.nf_done[(model, left)] = "NotImplementedError"
             if self.prop == "C07":
                 self.note("nie_disconnected")
             return "NotImplementedError"
         nm = self.check_value(nf, model, "normal form")
+        self.nf_done[(model, left)] = nm
         if ended and not repeated and (nf != last or nm != last_model):
             raise self.vio("final", "normal_form differs from the last step of its own trace")
         if not boxes_preserved(model, nm, self.cfg["cls"] == "rigid"):
@@ -673,6 +685,9 @@ class Driver:
         if cls == "rigid" and self.prop == "C07":
             atoms = ("a", "b")[:cfg["atoms"]]
             return B.gen_rigid(rng, cfg["nsteps"], atoms, cfg["maxw"], cfg["zs"], cfg["p_template"])
+        if cls == "rigid" and self.prop == "C05" and rng.random() < 0.5:
+            return B.gen_rigid(rng, max(1, cfg["nboxes"]), ("a", "b")[:max(1, min(2, cfg["atoms"]))],
+                               cfg["maxw"], (0, 0, 1, -1, 2), 0.4)
         names = ("x", "y", "z")[:cfg["atoms"]]
         real_cls = {"rigid_plain": "rigid"}.get(cls, cls)
         if real_cls == "tensor":
